@@ -165,28 +165,28 @@ def register(claim, na):
 
 # clauses added in session 2, rounds 2-3 (appended to the claim text; the rule catalogue with techniques is DESIGN.md 4c)
 ADDED = {
-    "C01": "R-BARY decides calculate_closest_points on the function specialised for n_points = 2, 3, 4 (dispatch folded, accumulation loop unrolled): both returned points are sums of weight_i * support_i with the weights of ONE call of the k-point barycentric function on Y[0..k-1]. R-WEIGHTROLE: in get_barycentric_coordinates_plane the weights of an edge stay with its two vertices, the third is 0 and closed-form weights sum to 1. R-ERICSON: the six Voronoi-region tests of closest_point_triangle are Ericson's conditions (names resolved to the vertices). R-COHERENCE restricted to what support_function reads (the colliders of the statement include colliders moved with update_pose) and R-ADJACENCY (mesh colliders answer support queries by hill climbing over that adjacency): the scope contains the colliders' __init__ / update_pose.",
+    "C01": "R-BARY decides calculate_closest_points on the function specialised for n_points = 2, 3, 4 (dispatch folded, accumulation loop unrolled): both returned points are sums of weight_i * support_i with the weights of ONE call of the k-point barycentric function on Y[0..k-1]. R-WEIGHTROLE: in get_barycentric_coordinates_plane the weights of an edge stay with its two vertices, the third is 0 and closed-form weights sum to 1. R-ERICSON: the six Voronoi-region tests of closest_point_triangle are Ericson's conditions (names resolved to the vertices). R-COHERENCE restricted to what support_function reads (the colliders of the statement include colliders moved with update_pose) and R-ADJACENCY (mesh colliders answer support queries by hill climbing over that adjacency): the scope contains the colliders' __init__ / update_pose. R-PLANES last step: one winding sign decides all four faces of origin_outside_of_tetrahedron_planes, mixed or zero reference signs report every face outside (all 81 sign patterns x plane values around +-eps evaluated). R-LINEWEIGHTS: get_barycentric_coordinates_line returns (u, v) with u + v = 1 and (u a + v b).(b - a) = 0 as exact identities in <a,a>, <a,b>, <b,b> (rational normal form, core/bilin.py), the degenerate branch favours the nearer end point; closest_point_line returns the other end point when a weight is <= 0.",
     "C02": "R-SUPPORTSIBLING (box / capsule / cylinder supports of the two Nesterov files have the same shape up to data access); R-ERICSON (jolt triangle solver); R-MAINLOOP (the two Nesterov main loops are statement-for-statement the same shape); R-PORTALDIR (the portal "
            "direction used with the length tolerance of MPR is unit). R-FRAME over the collider methods the tests call (centre, support, first vertex): MPR aims its origin ray at collider.center(). R-SWAPROWS (see C08). R-DTREE is decided semantically where both copies are loop-free sign-case analyses: for every assignment of signs (-, 0, +) to the compared scalar products the two copies (private helpers entered) return the same term. The property scope follows address-taken functions and module-level tables of functions (a dispatch written as `TABLE[type(c)](...)` keeps its callees in scope). R-COHERENCE restricted to what support_function reads (the colliders of the statement include colliders moved with update_pose) and R-ADJACENCY (mesh colliders answer support queries by hill climbing over that adjacency): the scope contains the colliders' __init__ / update_pose. R-ROWALIAS: the simplex re-ordering functions of the two Nesterov files (origin_to_point / _segment / _triangle) read every vertex argument before the row it views is overwritten, or copy it first — interpretation over labelled rows for exactly the row assignments that occur at the call sites (views are inferred from `a = simplex[i]` and propagated through t_b / region_*).",
     "C03": "R-SHORTCUTS (the six signed-axis extremes are the shortcut vertices of the hill climb); R-BASISGUARD (plane_basis_from_normal branches on magnitudes before dividing by the length of the winning pair); R-ADJACENCY (each vertex of a mesh "
-           "triangle gets the other two as neighbours); R-HALFSIZE; R-PUREARGS (public functions never modify an array argument in place). R-CENTERINSET: center() of a vertex-defined collider is a convex combination of its vertices (mean over axis 0), never built from per-coordinate extremes. R-STALEKEY: a cache key compared with part of the pose is a copy, not a view of it. R-ADJACENCY is decided by interpreting the neighbour-recording loop body for one generic triangle over vertex labels.",
+           "triangle gets the other two as neighbours); R-HALFSIZE; R-PUREARGS (public functions never modify an array argument in place). R-CENTERINSET: center() of a vertex-defined collider is a convex combination of its vertices (mean over axis 0), never built from per-coordinate extremes. R-STALEKEY: a cache key compared with part of the pose is a copy, not a view of it. R-ADJACENCY is decided by interpreting the neighbour-recording loop body for one generic triangle over vertex labels. R-RESIDUALZERO: a division by the length of a projection residual v - (v.a) a is not protected by an exact zero test alone.",
     "C04": "R-LINKS / R-REFIT on the AABB tree that backs RigidBody.aabb(); R-HALFSIZE; R-PUREARGS. R-ROUNDTRIP: a square root whose radicand vanishes for axis-aligned poses is not fed by a term recovered through cancellation ((p + h*axis) - p) — the tightness clause for poses far from the origin. R-STALEKEY (see C03): MeshGraph.aabb-style caches validated against the current pose must not key on a view of the pose.",
-    "C05": "R-TRAVERSE additionally: no exit before the traversal (no pre-filter on the query box). R-CLOSED is decided by abstract evaluation of aabb_overlap's body on all 729 order types of the six bound pairs (loops, early exits and negations included). A pre-filter in front of a traversal (anything that returns or empties the stack before the loop) must imply non-overlap under the closed-interval test: its condition is evaluated on a grid of integer boxes that realises every order type of the four bounds of an axis. Guard-clause and nested-if styles of the traversal are equivalent to the rule. R-LINKS / R-REFIT are decided by symbolic execution of insert_leaf and fix_upward_tree over symbolic node indices (post-state of the node table on every path, one generic iteration of each loop); R-BOOKKEEP / R-INDEXSPACE by a symbolic length / segment interpreter of AabbTree.insert_aabbs (every container as long as the node table, payload at rows F..F+n-1, capacity F+2n, truncation to the returned fill level). R-INDEXSPACE is decided on the VALUE that reaches the insert_order argument of the compiled insertion on every path of the length interpreter (private helpers entered per path): an index range or a permutation of one, which must start at the fill level at entry and have the batch size. Pre-filter clause also for the Python methods in front of the compiled traversals (AabbTree.overlaps_aabb / overlaps_aabb_tree): an exit before the query call must imply non-overlap of the root boxes under the closed test (numpy-style element-wise evaluation on the integer box grid). R-INDEXTRUTH: an array the function uses as an integer index is never reduced with np.any / np.all / bool (index 0 is falsy).",
+    "C05": "R-TRAVERSE additionally: no exit before the traversal (no pre-filter on the query box). R-CLOSED is decided by abstract evaluation of aabb_overlap's body on all 729 order types of the six bound pairs (loops, early exits and negations included). A pre-filter in front of a traversal (anything that returns or empties the stack before the loop) must imply non-overlap under the closed-interval test: its condition is evaluated on a grid of integer boxes that realises every order type of the four bounds of an axis. Guard-clause and nested-if styles of the traversal are equivalent to the rule. R-LINKS / R-REFIT are decided by symbolic execution of insert_leaf and fix_upward_tree over symbolic node indices (post-state of the node table on every path, one generic iteration of each loop); R-BOOKKEEP / R-INDEXSPACE by a symbolic length / segment interpreter of AabbTree.insert_aabbs (every container as long as the node table, payload at rows F..F+n-1, capacity F+2n, truncation to the returned fill level). R-INDEXSPACE is decided on the VALUE that reaches the insert_order argument of the compiled insertion on every path of the length interpreter (private helpers entered per path): an index range or a permutation of one, which must start at the fill level at entry and have the batch size. Pre-filter clause also for the Python methods in front of the compiled traversals (AabbTree.overlaps_aabb / overlaps_aabb_tree): an exit before the query call must imply non-overlap of the root boxes under the closed test (numpy-style element-wise evaluation on the integer box grid). R-INDEXTRUTH: an array the function uses as an integer index is never reduced with np.any / np.all / bool (index 0 is falsy). R-BRUTEFORCE: all_aabbs_overlap tests every pair (i, j) with aabb_overlap(first[i], second[j]) and records i, j, (i, j), returned in that order — index space enumerated for 0 .. 3 boxes per side (core/indexspace.py).",
     "C06": "R-CLOSED by abstract evaluation (see C05). Pre-filter clause of R-TRAVERSE (see C05). Tree link / refit / bookkeeping clauses by the interpreters of C05. detect_any is evaluated in two scenarios (no hit / first hit). Wrapper pre-filter clause and R-INDEXTRUTH (see C05).",
-    "C07": "R-TOLUNIT (self.epsilon is compared with quantities of one length degree only). R-LOUDCAP: running out of polytope faces is asserted, never a silent break. R-SWAPREMOVE: an index handed to a swap-remove inside a loop that changes the container is computed in that iteration; a scan that removes at its own position re-examines it. R-ADJACENCY (the scope includes the collider support functions epa queries): a mesh support over an incomplete adjacency returns a non-extreme vertex and EPA converges early. R-DEFINITE: a closeness test on a vector difference uses a definite quantity (norm, sum of squares / absolute values), not a signed sum of components.",
-    "C08": "R-ERICSON (point_to_triangle, used for depth and direction); R-PORTALDIR. R-SWAPROWS: row-moving helpers of the portal keep v, v1, v2 parallel (interpretation over labelled cells with numpy view / copy semantics, all index pairs). R-COHERENCE restricted to what support_function reads (the colliders of the statement include colliders moved with update_pose) and R-ADJACENCY (mesh colliders answer support queries by hill climbing over that adjacency): the scope contains the colliders' __init__ / update_pose.",
+    "C07": "R-TOLUNIT (self.epsilon is compared with quantities of one length degree only). R-LOUDCAP: running out of polytope faces is asserted, never a silent break. R-SWAPREMOVE: an index handed to a swap-remove inside a loop that changes the container is computed in that iteration; a scan that removes at its own position re-examines it. R-ADJACENCY (the scope includes the collider support functions epa queries): a mesh support over an incomplete adjacency returns a non-extreme vertex and EPA converges early. R-DEFINITE: a closeness test on a vector difference uses a definite quantity (norm, sum of squares / absolute values), not a signed sum of components. R-TOLUNIT: a tolerance handed to a constructor (`Polytope(.., epsilon)` -> self.epsilon) is one symbol with the caller's: all its comparisons agree in length degree.",
+    "C08": "R-ERICSON (point_to_triangle, used for depth and direction); R-PORTALDIR. R-SWAPROWS: row-moving helpers of the portal keep v, v1, v2 parallel (interpretation over labelled cells with numpy view / copy semantics, all index pairs). R-COHERENCE restricted to what support_function reads (the colliders of the statement include colliders moved with update_pose) and R-ADJACENCY (mesh colliders answer support queries by hill climbing over that adjacency): the scope contains the colliders' __init__ / update_pose. R-SAMEROW: an expression that reads rows of both support containers (v1, v2) reads the same rows of both.",
     "C09": "R-MAINLOOP, R-SUPPORTSIBLING (see C02); R-COFACTORSIGN: every cofactor comparison in BarycentricCoordinates is `d > c` or its exact complement `d <= c`. Vertex candidates of the backup procedure are judged by their effects on a normal form (helpers, literal loops and straight-line methods expanded): weight 1 in slot 0, point, squared norm, recorded index. R-JOHNSONREC (see C18). R-DOTTABLE: SimplexInfo.select_* is interpreted for every literal selection made at a call site, over labelled cells: row r receives row P_r of the three parallel containers and table[r, c] the old [max(P_r, P_c), min(P_r, P_c)]. R-DTREE by sign cases and the scope through function tables (see C02). R-JOHNSONOPT / R-DOTTABLE read the sub-algorithm with its private single-exit helpers opened and literal loops unrolled (see C18). R-COHERENCE restricted to what support_function reads (the colliders of the statement include colliders moved with update_pose) and R-ADJACENCY (mesh colliders answer support queries by hill climbing over that adjacency): the scope contains the colliders' __init__ / update_pose. R-ROWALIAS (see C02).",
-    "C10": "R-TOLUNIT (each epsilon parameter is compared with quantities of a single length degree; three upstream exceptions are named); R-SEGSIBLING (_line_to_line_segment is _line_segment_to_line_segment minus the clamping of t); R-PARALLELSIGN (parallel tests are orientation independent); R-ERICSON (point_to_triangle); R-HALFSIZE; R-PUREARGS. R-AFFINE: every returned vector is an affine combination of positions (position weight 1) or a direction (0) — weights inferred through +, -, constant factors and per call site through private helpers. R-ISOLATED: a case analysis over one scalar leaves no single threshold value to a fall-through written for a range. R-INSIDEZERO (see C13): for interior points the returned distance is 0, consistent with the returned point. R-AXISPAIR: component tests of one conjunction pair each component with its own bound (injective index map). R-DEFINITE (see C07).",
-    "C11": "R-TOLUNIT; R-SEGSIBLING; R-PARALLELSIGN; R-ERICSON; R-SIDES (x2 computed from side-2 data: the rectangle extents); R-HALFSIZE. R-ISOLATED (see C10). R-AXISPAIR (see C10).",
-    "C12": "R-TOLUNIT (tolerances keep one length degree: scale covariance of the degeneracy tests); R-MIRROR / R-CASEDISPATCH / R-TOURNAMENT / R-BOXFACE: the line-to-box case analysis is invariant under relabelling of the box axes. R-AFFINE (translation invariance: returned points carry position weight 1); R-SELCOMP (a divisor component is selected by magnitude, not by signed value). R-ROUNDTRIP (see C14): colliders stored without a pose matrix read each attribute from the pose slot collider2origin writes (rows vs columns of the rotation).",
-    "C13": "R-SQRTDOMAIN for np.sqrt in the predicates; R-HALFSIZE over the predicates and the point_to_<shape> functions they must agree with; R-PUREARGS. R-ISOLATED: row masks / if-chains over one scalar against thresholds do not drop a single threshold value into the fall-through case. R-INSIDEZERO: point_to_ellipsoid, walked with the inside test true and the flags at their defaults, can only return (0.0, point) — the distance function agrees with points_in_ellipsoid on interior points. R-COHERENCE restricted to what support_function reads: the statement names the collider's support function, and a collider reaches its pose through update_pose.",
+    "C10": "R-TOLUNIT (each epsilon parameter is compared with quantities of a single length degree; three upstream exceptions are named); R-SEGSIBLING (_line_to_line_segment is _line_segment_to_line_segment minus the clamping of t); R-PARALLELSIGN (parallel tests are orientation independent); R-ERICSON (point_to_triangle); R-HALFSIZE; R-PUREARGS. R-AFFINE: every returned vector is an affine combination of positions (position weight 1) or a direction (0) — weights inferred through +, -, constant factors and per call site through private helpers. R-ISOLATED: a case analysis over one scalar leaves no single threshold value to a fall-through written for a range. R-INSIDEZERO (see C13): for interior points the returned distance is 0, consistent with the returned point. R-AXISPAIR: component tests of one conjunction pair each component with its own bound (injective index map). R-DEFINITE (see C07). R-RIMPOINT: in `centre + radius * v` v is a unit vector (unit parameter, norm_vector, x/|x|, rotation column), not the raw result of pr.perpendicular_to_vector / a cross product (found and fixed finding S with it). R-CLIPSYM additionally: clipped components and bound select the same components. R-AFFINE additionally: inside a helper analysed for a call site, (direction) - (position) is reported (a reference point subtracted twice).",
+    "C11": "R-TOLUNIT; R-SEGSIBLING; R-PARALLELSIGN; R-ERICSON; R-SIDES (x2 computed from side-2 data: the rectangle extents); R-HALFSIZE. R-ISOLATED (see C10). R-AXISPAIR (see C10). R-RIMPOINT, R-CLIPSYM component clause (see C10).",
+    "C12": "R-TOLUNIT (tolerances keep one length degree: scale covariance of the degeneracy tests); R-MIRROR / R-CASEDISPATCH / R-TOURNAMENT / R-BOXFACE: the line-to-box case analysis is invariant under relabelling of the box axes. R-AFFINE (translation invariance: returned points carry position weight 1); R-SELCOMP (a divisor component is selected by magnitude, not by signed value). R-ROUNDTRIP (see C14): colliders stored without a pose matrix read each attribute from the pose slot collider2origin writes (rows vs columns of the rotation). R-RIMPOINT, R-CLIPSYM component clause, R-AFFINE direction-minus-position clause (see C10).",
+    "C13": "R-SQRTDOMAIN for np.sqrt in the predicates; R-HALFSIZE over the predicates and the point_to_<shape> functions they must agree with; R-PUREARGS. R-ISOLATED: row masks / if-chains over one scalar against thresholds do not drop a single threshold value into the fall-through case. R-INSIDEZERO: point_to_ellipsoid, walked with the inside test true and the flags at their defaults, can only return (0.0, point) — the distance function agrees with points_in_ellipsoid on interior points. R-COHERENCE restricted to what support_function reads: the statement names the collider's support function, and a collider reaches its pose through update_pose. R-PUREARGS follows locals that may share memory with a parameter (np.asarray / views / reshape).",
     "C14": "R-SHORTCUTS; R-ADJACENCY; R-PUREARGS. R-UNTOUCHED: no function that is handed a collider modifies its state in place, directly or through np.asarray / view aliases (the property is observed through queries, so these functions belong to the scope). R-STALEKEY (see C03). R-QUERYSTATE second clause: no method of a collider other than the query itself reads state that a query writes (first_idx), neither on self nor through a member object.",
     "C15": "R-ANGLESORT (contact polygon ordered by arctan2(y, x) about the centroid); R-BOUNDEDSTORE (counter-indexed stores into local buffers are bounded by a check or by the loop count); R-STIFFNESS: both terms of the contact-plane expression carry the same Young's-modulus exponents (dimensional bookkeeping with E1, E2 as units); "
-           "R-HPLAYOUT: half-plane rows (px, py | dx, dy) are sliced only at pair boundaries. R-PLANECROSS also at the caller: before a polygon is built both tetrahedra are tested against the plane (no reduction over the stacked vertices of both). R-STIFFNESS followed from find_contact_surface to contact_plane with the exponents of the actual arguments. R-CONTACTFORCE: the contact polygon is integrated as a fan of triangles over distinct consecutive vertex pairs and the centroid, each with its own area and the pressure at its own centroid (looped and vectorised forms are the same instance). R-COMPACT input side: in a compaction loop an array that is never written at the output counter is not read at it. R-CONTACTFORCE is decided by algebraic evaluation of one generic iteration of the triangle fan (sums / products flattened and sorted): += pressure(centroid) * area, += area, += area * centroid, with area = 1/2 |e x e'| and pressure = sum(solve(X, [centroid; 1]) * potentials * modulus); an index-driven fan must be (p[0], p[i+1], p[i+2]). R-HPCOVER: intersect_halfplanes intersects every pair of half-planes and tests each candidate against every other half-plane — index space of the loop nest (private helpers entered) enumerated for n = 3 .. 6. R-SHAREDPOSE (see C16). R-INDEXTRUTH (see C05).",
-    "C16": "R-STIFFNESS (see C15). R-STIFFNESS followed through the call chain (a pressure field passed together with the modulus applies the stiffness twice). R-CONTACTFORCE (see C15): the force on the polygon is the sum over its triangle fan, along the plane normal. R-REACTION is decided on what contact_forces RETURNS, by symbolic evaluation of contact_forces -> accumulate_wrenches -> _transform_wrenches with negations pushed outward: (intersection, X.hstack(-sum F, sum (r - c2) x (-F)), X.hstack(sum F, sum (r - c1) x F)) with one transform X. R-HPCOVER (see C15). R-INDEXTRUTH (see C05).",
-    "C18": "R-COFACTORSIGN; R-ERICSON (jolt); Solution.from_vertex stores weight 1 in slot 0 (R-JOHNSON). R-BITMAP sees through extracted remap helpers; vertex candidates by effects (see C09). R-JOHNSONOPT: each of the 23 tests in front of a sub-simplex of the main sub-algorithm is exactly Johnson's optimality condition (predicates expanded to literals). R-JOHNSONREC: all 43 cofactor stores of the original GJK's BarycentricCoordinates follow Johnson's recursion (factors resolved interprocedurally to y_i.(y_k - y_j)). R-JOHNSONOPT and the call-site enumeration of R-DOTTABLE read the sub-algorithm functions in a normal form: private single-exit helpers of the module opened at their call sites, loops over literal tables (also of bound methods) unrolled. R-SOLVERDISPATCH: the acceptance test may be a named boolean (`worse = not (new < prev)`).",
+           "R-HPLAYOUT: half-plane rows (px, py | dx, dy) are sliced only at pair boundaries. R-PLANECROSS also at the caller: before a polygon is built both tetrahedra are tested against the plane (no reduction over the stacked vertices of both). R-STIFFNESS followed from find_contact_surface to contact_plane with the exponents of the actual arguments. R-CONTACTFORCE: the contact polygon is integrated as a fan of triangles over distinct consecutive vertex pairs and the centroid, each with its own area and the pressure at its own centroid (looped and vectorised forms are the same instance). R-COMPACT input side: in a compaction loop an array that is never written at the output counter is not read at it. R-CONTACTFORCE is decided by algebraic evaluation of one generic iteration of the triangle fan (sums / products flattened and sorted): += pressure(centroid) * area, += area, += area * centroid, with area = 1/2 |e x e'| and pressure = sum(solve(X, [centroid; 1]) * potentials * modulus); an index-driven fan must be (p[0], p[i+1], p[i+2]). R-HPCOVER: intersect_halfplanes intersects every pair of half-planes and tests each candidate against every other half-plane — index space of the loop nest (private helpers entered) enumerated for n = 3 .. 6. R-SHAREDPOSE (see C16). R-INDEXTRUTH (see C05). R-ALLFACES: all 4 + 4 half-spaces of the two tetrahedra reach make_halfplanes and every row is visited. R-FRAME over the contact-surface code with flow-sensitive frames for attributes that a method re-frames (`self.X = transform(a2b, self.X)`).",
+    "C16": "R-STIFFNESS (see C15). R-STIFFNESS followed through the call chain (a pressure field passed together with the modulus applies the stiffness twice). R-CONTACTFORCE (see C15): the force on the polygon is the sum over its triangle fan, along the plane normal. R-REACTION is decided on what contact_forces RETURNS, by symbolic evaluation of contact_forces -> accumulate_wrenches -> _transform_wrenches with negations pushed outward: (intersection, X.hstack(-sum F, sum (r - c2) x (-F)), X.hstack(sum F, sum (r - c1) x F)) with one transform X. R-HPCOVER (see C15). R-INDEXTRUTH (see C05). R-ALLFACES (see C15); R-BRUTEFORCE (see C05).",
+    "C18": "R-COFACTORSIGN; R-ERICSON (jolt); Solution.from_vertex stores weight 1 in slot 0 (R-JOHNSON). R-BITMAP sees through extracted remap helpers; vertex candidates by effects (see C09). R-JOHNSONOPT: each of the 23 tests in front of a sub-simplex of the main sub-algorithm is exactly Johnson's optimality condition (predicates expanded to literals). R-JOHNSONREC: all 43 cofactor stores of the original GJK's BarycentricCoordinates follow Johnson's recursion (factors resolved interprocedurally to y_i.(y_k - y_j)). R-JOHNSONOPT and the call-site enumeration of R-DOTTABLE read the sub-algorithm functions in a normal form: private single-exit helpers of the module opened at their call sites, loops over literal tables (also of bound methods) unrolled. R-SOLVERDISPATCH: the acceptance test may be a named boolean (`worse = not (new < prev)`). R-PLANES last step and R-LINEWEIGHTS (see C01).",
     "C19": "R-BASISGUARD. Flag loops (`while not done: ...; done = E`) are classified through their normal form `while True: ...; if E: break`; state loops (`while state == Unknown`) likewise. A search loop that runs 'until nothing improved' is accepted only when it carries a per-state potential: the accepted candidate's value is stored and the next comparison is made against that stored value (a gain recomputed from the pair of states can be positive around a cycle: finding R, fixed). R-DEFINED (see C20) over the narrow-phase scope: a read of an unassigned local is an exception on that path. R-LOOP state loops: the variable the loop passes as the helper's carried parameter is re-bound, by the same statement, from the slot in which the helper hands the updated value back. R-INDEXTRUTH (see C05).",
-    "C20": "R-BOUNDEDSTORE (see C15). R-DEFINED over the njit functions: no local is read where only some arms of an earlier conditional assigned it (UnboundLocalError interpreted, a zero slot compiled). R-COMPACT input side (see C15). R-GUARDAFTERUSE: in a compiled function a scalar division is not evaluated before the function's own zero test of its divisor (compiled: ZeroDivisionError; interpreted numpy scalar: inf).",
+    "C20": "R-BOUNDEDSTORE (see C15). R-DEFINED over the njit functions: no local is read where only some arms of an earlier conditional assigned it (UnboundLocalError interpreted, a zero slot compiled). R-COMPACT input side (see C15). R-GUARDAFTERUSE: in a compiled function a scalar division is not evaluated before the function's own zero test of its divisor (compiled: ZeroDivisionError; interpreted numpy scalar: inf). R-SAFEDIV over the compiled closed-form distance functions: a division by a magnitude sits on the non-zero side of a test of that magnitude (compiled code raises where numpy returns inf); one named exception (zero-length segment, outside domain D).",
 }
 ALL = "R-UNPACK (tuple results unpacked in the callee's return order) and R-DUPCOND (no repeated operand / self-comparison / repeated elif test) over every function in the property's scope."
 
